@@ -77,6 +77,7 @@
 
 #![allow(unexpected_cfgs)]
 
+use std::alloc::Layout;
 use std::borrow::Borrow;
 use std::fmt::{self, Debug, Formatter};
 use std::hash::{BuildHasher, Hash};
@@ -693,13 +694,32 @@ where
 
     fn try_reallocate(&mut self, new_capacity: usize) -> Result<(), TryReserveError> {
         let hasher = make_hasher(&self.hash_builder);
+
+        // Hashing calls into user code, which may panic. So, all hashes are
+        // computed before any entry is moved. If hashing panics, the cache is
+        // still untouched. The old table is iterated in the same order below.
+
+        let mut hashes = Vec::new();
+
+        if hashes.try_reserve_exact(self.table.len()).is_err() {
+            let layout = Layout::array::<u64>(self.table.len())
+                .map_err(|_| TryReserveError::CapacityOverflow)?;
+            return Err(TryReserveError::AllocError { layout });
+        }
+
+        unsafe {
+            for bucket in self.table.iter() {
+                hashes.push(hasher(bucket.as_ref()));
+            }
+        }
+
         let mut old_table = RawTable::try_with_capacity(new_capacity)?;
         mem::swap(&mut self.table, &mut old_table);
 
-        for entry in old_table.into_iter() {
+        for (entry, hash) in old_table.into_iter().zip(hashes) {
             let mut prev_entry = entry.prev;
             let mut next_entry = entry.next;
-            let bucket = self.table.insert(hasher(&entry), entry, &hasher);
+            let bucket = self.table.insert(hash, entry, &hasher);
             let entry_ptr = EntryPtr::new(bucket.as_ptr());
             prev_entry.get_mut().next = entry_ptr;
             next_entry.get_mut().prev = entry_ptr;
